@@ -153,7 +153,7 @@ where
     }
     // Newton iterations
     let mut l = (operand / D::from_num(2)) + D::from_num(1);
-    for _i in 0..D::frac_nbits() {
+    for _i in 0..(D::int_nbits() + D::frac_nbits()) {
         #[cfg(substrate_fixed_verif)]
         crate::verif_hook::tick();
         l = (l + operand / l) / D::from_num(2);
